@@ -131,6 +131,10 @@ def spaces(tier, seed):
                                           "form": FORMS, "aware": [None, True], "tzenv": ["UTC"]},
                       note="instants around every clock change of the zone itself in %s (wall times in the gap or the repeated hour are skipped for the "
                            "forms that write a wall time; the timestamp form writes the instant)" % (DST_YEARS,)))
+    sp.append(Product("custom-format-with-%z", {"A": [None, "UTC", "America/New_York", "Asia/Kolkata", "+0300"], "B": [None, "UTC", "Asia/Tokyo", "-0800"],
+                                                "z": ["+0000", "+0530", "-0800", "+1400", "-0330", "+0100"], "w": [0, 5, 11],
+                                                "zf": ["%Y-%m-%d %H:%M:%S %z", "%z %d/%m/%Y %H.%M.%S", "%d %B %Y %I:%M:%S %p (%z)"], "aware": AWARE, "tzenv": ["UTC"]},
+                      note="the string names its own zone through the format's %z directive"))
     if T:
         sp.append(Product("all-pairs", {"A": pz, "B": pz, "w": [5, 7], "form": ["absolute"], "aware": [True], "tzenv": ["UTC"]}))
         years = [datetime(y, m, d, 12, 34, 56) for y in range(1950, 2038) for (m, d) in ((1, 15), (3, 28), (7, 1), (10, 30))]
@@ -159,7 +163,56 @@ def run_case(sub, c):
             set_process_zone("UTC")
 
 
+def _run_z(sub, c):
+    """date_formats with %z: the string names its own zone.  Statement: TIMEZONE (if given) and TO_TIMEZONE re-express the instant; the
+    result is aware unless RETURN_AS_TIMEZONE_AWARE is False."""
+    W = LOCALS[c["w"]]
+    A, B, aware, z = c["A"], c["B"], c["aware"], c["z"]
+    zmin = (int(z[1:3]) * 60 + int(z[3:5])) * (-1 if z[0] == "-" else 1)
+    inst = pytz.FixedOffset(zmin).localize(W)
+    names = {"%Y": "%04d" % W.year, "%m": "%02d" % W.month, "%d": "%02d" % W.day, "%H": "%02d" % W.hour, "%M": "%02d" % W.minute, "%S": "%02d" % W.second,
+             "%B": ["January", "February", "March", "April", "May", "June", "July", "August", "September", "October", "November", "December"][W.month - 1],
+             "%I": "%02d" % (W.hour % 12 or 12), "%p": "AM" if W.hour < 12 else "PM", "%z": z}
+    s = c["zf"]
+    for k, v in names.items():
+        s = s.replace(k, v)
+    st = {}
+    if A is not None:
+        st["TIMEZONE"] = A
+    if B is not None:
+        st["TO_TIMEZONE"] = B
+    if aware is not None:
+        st["RETURN_AS_TIMEZONE_AWARE"] = aware
+    target = B or A
+    e = inst.astimezone(ref_zone(target)) if target else inst
+    exp = (e.replace(tzinfo=None), e.utcoffset(), aware is not False)
+    # what the library is known to do instead (finding C12-K1): TIMEZONE is ignored, and the result is naive unless RETURN_AS_TIMEZONE_AWARE is True
+    k = inst.astimezone(ref_zone(B)) if B else inst
+    known = (k.replace(tzinfo=None), k.utcoffset(), aware is True)
+    o = api.outcome_of(api.gdd, s, ["en"], None, None, st or None, [c["zf"]])
+    if o[0] == "exc":
+        got, prob = o[1:], "exception " + o[1]
+    else:
+        r = got = o[1].date_obj
+        if r is None:
+            prob = "no result"
+        else:
+            obs = (r.replace(tzinfo=None), r.utcoffset(), r.tzinfo is not None)
+
+            def same(x):
+                return obs[0] == x[0] and obs[2] == x[2] and (not obs[2] or obs[1] == x[1])
+            if same(exp):
+                return "ok", True, None
+            prob = "known: TIMEZONE ignored / naive unless RETURN_AS_TIMEZONE_AWARE is True" if same(known) else (
+                "awareness" if obs[2] != exp[2] else ("wall clock" if obs[0] != exp[0] else "utc offset"))
+    return "bad", True, {"cls": {"form": "custom-format+%z", "sub": sub, "aware_setting": aware, "problem": prob, "TIMEZONE": A is not None},
+                         "expected": {"wall": exp[0], "offset": exp[1], "aware": exp[2]}, "observed": got,
+                         "detail": {"string": s, "settings": st, "date_formats": [c["zf"]]}}
+
+
 def _run(sub, c):
+    if sub == "custom-format-with-%z":
+        return _run_z(sub, c)
     A, B, form, aware = c["A"], c["B"], c["form"], c["aware"]
     if sub == "dst-transitions":
         tr = transitions(A)
